@@ -301,7 +301,15 @@ class Xrl:
             pass
         cols, pool, n = self._prep(sig, args)
         out = np.zeros(n, dtype=REC); crashed = []; blobs = []
-        d = lambda lo, hi: self._drv(0).request(opcode, name, mode, hi - lo, [(t, a[lo:hi]) for t, a in cols], pool)
+
+        def d(lo, hi):
+            r, b = self._drv(0).request(opcode, name, mode, hi - lo, [(t, a[lo:hi]) for t, a in cols], pool)
+            if b:                                   # blob line indices are request-relative: rebase
+                for l in b.split(b"\n"):
+                    if l:
+                        a_, _, rest = l.partition(b"\t")
+                        blobs.append((b"%d" % (int(a_) + lo) if a_.isdigit() else a_) + b"\t" + rest)
+            return r, b
         pos = 0
         step = 200000
         skipped = None
@@ -323,7 +331,7 @@ class Xrl:
                     hi_bad = mid
             crashed.append(lo_ok)
             pos = lo_ok + 1
-        return out, b"", crashed, skipped
+        return out, (b"\n".join(blobs) + b"\n" if blobs else b""), crashed, skipped
 
     def call_safe(self, name, *args, mode=0):
         sig = self.sigs[name][2:-1]
